@@ -86,6 +86,17 @@ theorem insert_order_irrelevant_structural (ins ins' : List Ins) (hperm : ins.Pe
     (hnd : (ins.map Ins.key).Nodup) (s : Scope) : (buildEnv ins).scoped s = (buildEnv ins').scoped s :=
   buildEnv_perm_scoped ins ins' hperm hnd s
 
+/-- **M3c.** Queries do not change the value: a layer environment built by inserting `ins₁`, queried any number of times,
+and then extended by `ins₂` is the value built from `ins₁ ++ ins₂` — so it applies, for every scope, environment and
+variable, as the CNB rules prescribe for all the entries (`apply` takes `&self`; the model's `apply` returns an `Env` and
+has no other effect, so the intermediate queries do not even appear in the statement). -/
+theorem queries_between_inserts_irrelevant (ins₁ ins₂ : List Ins) (qs : Scope) (env : Env) (n : Bytes) :
+    ins₂.foldl Ins.apply (buildEnv ins₁) = buildEnv (ins₁ ++ ins₂) ∧
+      ((ins₂.foldl Ins.apply (buildEnv ins₁)).apply qs env).get n = specApply (ins₁ ++ ins₂) qs env n := by
+  have h : ins₂.foldl Ins.apply (buildEnv ins₁) = buildEnv (ins₁ ++ ins₂) := by
+    simp [buildEnv, List.foldl_append]
+  exact ⟨h, by rw [h]; exact apply_get _ _ _ _⟩
+
 /-- **M4a.** `default` fills only an *unset* variable: an empty-string value is kept. -/
 theorem default_keeps_empty_string (s : Scope) (n v : Bytes) (env : Env) (h : env.get n = some []) :
     ((buildEnv [⟨s, .default, n, v⟩]).apply s env).get n = some [] := by
